@@ -91,6 +91,10 @@ Theorem C16_extend_appends : forall d vs d' es r, l_extend gen_sig_tables d vs =
 Proof. exact (extend_spec gen_sig_tables). Qed.
 Print Assumptions C16_extend_appends.
 
+Theorem C16_clear_empties : forall d d' es r, l_clear gen_sig_tables d = LOk d' es r -> d' = [].
+Proof. exact (clear_spec gen_sig_tables). Qed.
+Print Assumptions C16_clear_empties.
+
 (* after unobserve(nm, ty, h) - from any state that agrees with a ledger, i.e. after any history - h receives
    no signal of any (name, type) the call names, as long as h is not subscribed to instance i again *)
 Theorem C16_unobserve_silences : forall slots_of st L,
